@@ -216,6 +216,10 @@ var cfgIRIs = []string{
 	"http://example.org/base/sub/x", "http://example.org/other", "http://e/a/b/d", "http://e/a/b/c?q#g", "http://e/ns/1a", "http://e/ns/a.b",
 	"http://e/ns/-x.", "http://e/ns/é", "http://e/ns/a%20b", "urn:x:y", "http://e/ns/", "http://schema.org/", "http://e/a", "http://example.org/é",
 	"http://www.w3.org/1999/02/22-rdf-syntax-ns#type", "http://www.w3.org/1999/02/22-rdf-syntax-ns#first", "http://www.w3.org/1999/02/22-rdf-syntax-ns#nil",
+	// (builder-c18miss) remainders next to the bases above that a relative reference cannot carry, and local names
+	// whose escaping depends on the position counted in characters, not bytes
+	"http://example.org/base/Category:Cities", "http://e/a/b/x:y", "file:///tmp/x/a:b", "http://example.org/base/x:y.z", "http://e/a/b//d",
+	"http://e/ns/Nestlé_S.A.", "http://schema.org/é.", "http://e/ns/日本.", "http://e/ns/.é", "http://e/ns/3×4",
 }
 
 var cfgUserPrefixes = []string{"ex:http://e/ns/", "e:http://e/", "x-y:urn:x:", ":http://example.org/", "dc:http://purl.org/dc/elements/1.1/", "s:http://schema.org/",
